@@ -155,6 +155,8 @@ class Engine:
         self.event_index = {}     # (kind, block, si) -> one Ev instance (for evidence)
         self.obligations = set()  # (rule, what, block) evaluated on at least one path
         self.truncated = False
+        self.drv_at_return = {}   # call site -> variants ("0" None / "1" Some) its last result had in states reaching a return
+        self.return_states = 0
         self.two_variant = set()  # expressions of type Option / Result (type facts, collected where a discriminant is read)
 
     # ------------------------------------------------------------- driver
@@ -179,6 +181,12 @@ class Engine:
                 break
             b, st = work.popleft()
             self.stats["blocks"].add(b)
+            if self.fn.blocks[b]["term"]["k"] == "return":
+                # what is known at function exit about the last result of each loop-driving call (ITER-1)
+                for e, v in st.var:
+                    if e[0] == "call" and (e[2] == "core::iter::Iterator::next" or is_pop_call(e[2])):
+                        self.drv_at_return.setdefault(e[1], set()).add(v)
+                self.return_states += 1
             for (nb, nst) in self.step(b, st):
                 nst = self.prune(nb, nst)
                 k = (nb, nst)
@@ -495,6 +503,14 @@ class Engine:
             if v == "0":
                 return self.assume(st, d[2], True, b)
             return st
+        if d[0] == "discr" and d[1][0] == "trybranch":
+            # `x?` on an Option: Continue (0) <=> Some (1), Break (1) <=> None (0)
+            x = d[1][1]
+            if v == "otherwise":
+                v = "1" if listed == ["0"] else ("0" if listed == ["1"] else None)
+                if v is None:
+                    return None if set(listed) >= {"0", "1"} else st
+            return self.refine(st, ("discr", x), "1" if v == "0" else "0", ["0", "1"], b)
         if d[0] == "discr":
             inner = d[1]
             known = st.variant(inner)
@@ -509,9 +525,13 @@ class Engine:
             if v == "otherwise":
                 if known is not None and known in listed:
                     return None
+                if known is None and inner[0] == "field" and inner[2] == "kind":
+                    return st.replace(flags=st.flags | {("notvar", inner, lv) for lv in listed})
                 return st
             if known is not None:
                 return st if known == v else None
+            if ("notvar", inner, v) in st.flags:
+                return None
             nst = st.replace(var=st.var | {(inner, v)})
             for r in self.rules:
                 h = getattr(r, "on_variant", None)
@@ -660,7 +680,7 @@ class Engine:
                     return nst
                 if known is not None and known == y[1]:
                     return None
-                return st
+                return st.replace(flags=st.flags | {("notvar", inner, y[1])})
             # dangling-sentinel test on a pointer address
             if op in ("Eq", "Ne") and is_const(y, MAX) and x[0] == "cast" and x[1] == "PtrToInt":
                 is_s = (op == "Eq") == truth
@@ -971,7 +991,7 @@ class Engine:
             A("extcall", args=args, res=res)
             return evs, False
         # ---- Extend::extend on a Vec is a series of pushes
-        if d == "core::iter::Extend::extend" and (callee.get("self_ty") or {}).get("adt") == "alloc::vec::Vec":
+        if d == "core::iter::Extend::extend" and (callee.get("self_ty") or {}).get("adt") in ("alloc::vec::Vec", "alloc::collections::VecDeque"):
             A("vec", op="extend", recv=args[0] if args else None, args=args, res=res)
             A("alloc", what=d)
             return evs, False
